@@ -149,6 +149,8 @@ def c01(tier, rep):
     for c in cases:
         rep.case(("scanner", c["kind"], tuple(c["arg"]), tuple(c["content"])))
     for b in bad[:20]:
+        if SC.acceptable_anyway(b):
+            continue
         rep.violation({"kind": "scanner"}, {"engine": "MC_Scanner", "what": "the real TokenScanner reads something else than the specification's (as implemented) stream", **b})
     dev = [c for c in cases if c["known"] and c["kind"] == "arg" and (not c["impl_ok"] or [t[1] for t in c["impl"] if not t[0]] != (["".join(map(chr, c["arg"]))] if c["arg"] else []))]
     if dev:
